@@ -12,6 +12,7 @@ RULE = ("random documented-valid calls of anneal_qubo/quso/pubo/puso: model as d
         "rebuilt from the working tree with the H2 hook. Non-trivial = model with >= 2 variables, >= 2 terms and "
         "num_anneals >= 1; distinct = digest of (function, type, terms, kwargs)"
         " Also: plain dicts with explicit zero entries and long raw spellings (repeated boolean labels, inserted spin pairs), quadratic models held by higher-degree types whose degree bookkeeping still says 3, the same object annealed again after set_mapping permuted its enumeration, initial states spelled as list or tuple (integer-labelled Matrix inputs), user mappings listed in shuffled order, coefficients needing more than 24 significant bits (H2 must report zero deviation), kwargs and initial states spelled as numpy scalars, constrained PCBO/PCSO inputs with slack ancillas, one-shot iterator schedules, scribbling on returned states then the same call again, a second anneal after in-place edits (also with a complete initial_state; states name nothing outside model.variables).")
+RULE += " Rounds 9-10: labelled models that are one of several siblings derived from a common ancestor (copy / constructor / sum / deepcopy), each grown by a variable of its own; about every sixth model is grown in place out of a named variable object."
 TIERS = {"quick": {"shards": 8, "cases": 4000}, "thorough": {"shards": 16, "cases": 10000}}
 FLOOR_BASE = {"quick": 300, "thorough": 10000}    # case counts the floors below were calibrated for; the launcher scales them
 
